@@ -18,6 +18,7 @@ import (
 	"runtime/pprof"
 	"sort"
 	"strings"
+	"sync"
 	"time"
 
 	"verif/internal/evid"
@@ -589,6 +590,7 @@ func main() {
 	// package 1 (always run): SRTP at the wrap, undrained leaves, the words over 3 letters, one-reader placements
 	// of up to 3 events on shape 2m
 	core := &pkg{name: "core", must: true}
+	var slow [][]int
 	if part("srtpwrap") {
 		// SRTP and the sequence-number wrap: a reader joins between the last packet before the wrap and the first
 		// one after it (one case per TLS configuration; all other placement cases run TLS from sequence number 0)
@@ -602,7 +604,7 @@ func main() {
 				c.Rd2 = ""
 				cases = append(cases, Case{Cfg: c, Kind: "place", StartSeq: 65534, Gen: &Gen{Scripts: []string{"j"}, Pos: [][]int{{slot}}}})
 				counts["srtp_wrap_cases"]++
-				core.groups = append(core.groups, []int{len(cases) - 1})
+				slow = append(slow, []int{len(cases) - 1})
 			}
 		}
 	}
@@ -672,6 +674,7 @@ func main() {
 
 	agg := map[string]int64{}
 	perCfg := map[string]int64{}
+	var aggMu sync.Mutex
 	short := func(cs Case) string {
 		s := caseString(expand(cs))
 		return s[:min(300, len(s))]
@@ -709,7 +712,13 @@ func main() {
 			}
 			jobs = append(jobs, j)
 		}
-		results := evid.RunJobs(jobs, nw, 4*time.Minute)
+		workers := nw
+		if len(jobs) < workers {
+			workers = len(jobs)
+		}
+		results := evid.RunJobs(jobs, workers, 4*time.Minute)
+		aggMu.Lock()
+		defer aggMu.Unlock()
 		for ji, r := range results {
 			idx := jobCases[ji]
 			if r.Crashed || r.Stalled {
@@ -822,6 +831,16 @@ func main() {
 	}
 	perUnit := 0.0
 	var ran, skipped []string
+	// the cases that are known to wait for the hang limit (SRTP at the wrap) run beside everything else, on
+	// workers of their own, so that their waiting costs no wall time
+	var bg sync.WaitGroup
+	if len(slow) > 0 {
+		bg.Add(1)
+		go func() {
+			defer bg.Done()
+			runRound(slow)
+		}()
+	}
 	for _, p := range pkgs {
 		if stopped || len(p.groups) == 0 {
 			continue
@@ -831,20 +850,14 @@ func main() {
 			skipped = append(skipped, p.name)
 			continue
 		}
-		// heavy and light jobs interleaved so that the tail is short; single-case jobs (they may wait for the hang
-		// limit) stay first
-		sort.SliceStable(p.groups, func(a, b int) bool {
-			la, lb := len(p.groups[a]) == 1, len(p.groups[b]) == 1
-			if la != lb {
-				return la
-			}
-			return a%11 < b%11
-		})
+		// heavy and light jobs interleaved so that the tail is short
+		sort.SliceStable(p.groups, func(a, b int) bool { return a%11 < b%11 })
 		t0 := time.Now()
 		runPhase(p.groups)
 		perUnit = time.Since(t0).Seconds() / (p.units + 1)
 		ran = append(ran, fmt.Sprintf("%s (%.0fs)", p.name, time.Since(t0).Seconds()))
 	}
+	bg.Wait()
 	run.Set("packages_run", ran)
 	if len(skipped) > 0 {
 		run.Cap(fmt.Sprintf("time budget of %v: packages not run: %s", budget, strings.Join(skipped, "; ")))
